@@ -47,6 +47,10 @@ type Evidence struct {
 }
 
 var verifDir = "/verif"
+
+// outDir: where evidence and replay records go (the selftest runs several checks at once against
+// scratch copies of the repository and gives each its own).
+var outDir = "/verif"
 var writeLock = false
 
 func oblProps(o *Obligation) []string { return o.Props }
@@ -287,8 +291,12 @@ func runCheck(repo, contracts string, args []string, tier string, timeout time.D
 				violations++
 				violationLines = append(violationLines, fmt.Sprintf("VIOLATION property=%s replay=%s", prop, rp.Path))
 				fmt.Printf("  obligation %s refuted; replay confirmed: %s\n", or.O.ID, rp.Summary)
-			case locked[or.O.ID] || !safetyKind(or.O.Kind):
-				// an obligation that discharges on the reference tree no longer does
+			case locked[or.O.ID] || !safetyKind(or.O.Kind) || or.Status == "refuted":
+				// an obligation that discharges on the reference tree no longer does - or a safety
+				// obligation of a statement the reference tree does not have, for which the solver has a
+				// model of the failure (every safety obligation of the reference tree discharges, so a
+				// refuted one was introduced by the change; one the solvers merely cannot decide is
+				// reported as undecided and raises no alarm)
 				violations++
 				violationLines = append(violationLines, fmt.Sprintf("VIOLATION property=%s replay=%s no-failing-input-found", prop, rp.Path))
 				fmt.Printf("  obligation %s (%s) is no longer discharged: %s; %s\n", or.O.ID, or.O.Desc, or.Status, rp.Summary)
@@ -363,9 +371,9 @@ func runCheck(repo, contracts string, args []string, tier string, timeout time.D
 	}
 	ev.WallS = time.Since(t0).Seconds()
 	ev.Violations = violations
-	os.MkdirAll(filepath.Join(verifDir, "evidence"), 0o755)
+	os.MkdirAll(filepath.Join(outDir, "evidence"), 0o755)
 	b, _ := json.MarshalIndent(ev, "", " ")
-	os.WriteFile(filepath.Join(verifDir, "evidence", prop+".json"), b, 0o644)
+	os.WriteFile(filepath.Join(outDir, "evidence", prop+".json"), b, 0o644)
 	for _, l := range knownLines {
 		fmt.Println(l)
 	}
